@@ -19,6 +19,8 @@ pub const SIGMA: &[&str] = &[
     "x", "1", "0b1", "\"s\"", "[{c}]", "$v", "!add", "!cast", "!cond", "!foreach",
     // trivia
     " ", "\n", "\r\n", "//c\n", "//c", "/*c*/",
+    // integers at the edges of the types they are read into
+    "-9223372036854775808", "9223372036854775808", "18446744073709551616",
     // lexical error shapes
     "\"u", "[{u", "/*u", "..", "!zz", "0x", "@", "é", "\u{a0}", "\u{feff}", "$", "*", "\0",
     // preprocessor shapes
@@ -68,6 +70,7 @@ pub enum Stratum {
     Opener,
     Repetition,
     Sentence,
+    IntegerPosition,
 }
 
 impl Stratum {
@@ -82,6 +85,7 @@ impl Stratum {
             Stratum::Opener => "opener",
             Stratum::Repetition => "repetition",
             Stratum::Sentence => "sentence",
+            Stratum::IntegerPosition => "integer-position",
         }
     }
 }
@@ -322,8 +326,34 @@ pub fn for_each_word(tier: Tier, ctx: &mut Ctx, mut f: impl FnMut(&mut Ctx, &str
 }
 
 /// Seeds and corpus files, their prefixes, token mutations and variants.
+/// Every place of the grammar that takes an integer (bit ranges, slices, foreach ranges, bits widths, values,
+/// parameter defaults), with every spelling of a sign, a separator and an edge-of-range literal there.
+pub fn integer_position_texts() -> Vec<String> {
+    let separators = ["-", "+", " -", " +", "- ", "+ ", "...", " ... ", "-+", "--", "+-", " "];
+    let pairs = ["defvar x = a{7@4};", "defvar x = l[0@2];", "let X{3@1} = 1 in def d;", "def d : C { let X{3@1} = 1; }", "foreach i = 0@2 in def d;", "foreach i = {1@4} in def d;", "def d { bits<8> b; bit c = b{0@1, 2@3}; }"];
+    let ints = ["-1", "+1", "-0", "+0", "-9223372036854775808", "9223372036854775807", "9223372036854775808", "18446744073709551615", "18446744073709551616", "0x8000000000000000", "0xFFFFFFFFFFFFFFFFF", "0b11", "-0b1", "+0x1", "007"];
+    let singles = ["defvar x = a{@};", "defvar x = l[@];", "def d { bits<@> b; }", "def d { int x = @; }", "class C<int a = @>;", "foreach i = [@] in def d;", "def d : C<@>;", "defvar x = !add(@, @);", "let X{@} = 1 in def d;"];
+    let mut out = Vec::new();
+    for t in pairs {
+        for s in separators {
+            out.push(t.replace('@', s));
+        }
+    }
+    for t in singles {
+        for i in ints {
+            out.push(t.replace('@', i));
+        }
+    }
+    out
+}
+
 pub fn for_each_program_text(tier: Tier, ctx: &mut Ctx, files: &Files, mut f: impl FnMut(&mut Ctx, &str, Stratum) -> bool) {
     let small_limit = 8 * 1024;
+    for text in integer_position_texts() {
+        if ctx.mine() && !f(ctx, &text, Stratum::IntegerPosition) {
+            return;
+        }
+    }
     // whole files
     for (_, text) in files.seeds.iter().chain(files.corpus.iter()) {
         if ctx.mine() && !f(ctx, text, Stratum::Seed) {
